@@ -115,6 +115,11 @@ func c17Boot(t *testing.T, app *simapp.ElysApp, seed int64, setup func(w *World,
 		app.TokenomicsKeeper.SetAirdrop(ctx, toktypes.Airdrop{Intent: "c17drop", Amount: 1000, Authority: w.Gov, Expiry: 4_000_000_000})
 		app.TokenomicsKeeper.SetTimeBasedInflation(ctx, toktypes.TimeBasedInflation{StartBlockHeight: 1000, EndBlockHeight: 2000, Description: "c17", Inflation: infl, Authority: w.Gov})
 		app.AssetprofileKeeper.SetEntry(ctx, aptypes.Entry{BaseDenom: "uc17", Denom: "uc17", Decimals: 6, DisplayName: "C17", Authority: w.Gov})
+		// the same kinds of object recorded as owned by an ordinary account (what a genesis import or another module can leave behind)
+		rec := w.Accts[6].Addr.String()
+		app.TokenomicsKeeper.SetAirdrop(ctx, toktypes.Airdrop{Intent: "c17drop-o", Amount: 1000, Authority: rec, Expiry: 4_000_000_000})
+		app.TokenomicsKeeper.SetTimeBasedInflation(ctx, toktypes.TimeBasedInflation{StartBlockHeight: 3000, EndBlockHeight: 4000, Description: "c17o", Inflation: infl, Authority: rec})
+		app.AssetprofileKeeper.SetEntry(ctx, aptypes.Entry{BaseDenom: "uc17o", Denom: "uc17o", Decimals: 6, DisplayName: "C17O", Authority: rec})
 		app.OracleKeeper.SetAssetInfo(ctx, oracletypes.AssetInfo{Denom: "uc17", Display: "C17", Decimal: 6, BandTicker: "C17", ElysTicker: "C17"})
 		app.LeveragelpKeeper.WhitelistAddress(ctx, w.Accts[4].Addr)
 		app.PerpetualKeeper.WhitelistAddress(ctx, w.Accts[4].Addr)
@@ -246,6 +251,22 @@ type c17Env struct {
 	std   *Std
 	ctx   sdk.Context
 	other string // some third address used as a payload (whitelist entries, feeders)
+	owned bool   // target the copies of the stored objects whose recorded authority is an ordinary account (Accts[6]), as a genesis import can create
+}
+
+// obj picks the stored object a message targets: the governance-owned one, or its copy recorded as owned by Accts[6]
+func (e *c17Env) obj(gov, owned string) string {
+	if e.owned {
+		return owned
+	}
+	return gov
+}
+
+func (e *c17Env) h(gov, owned uint64) uint64 {
+	if e.owned {
+		return owned
+	}
+	return gov
 }
 
 func c17Infl(x uint64) *toktypes.InflationEntry {
@@ -275,10 +296,10 @@ var c17Ctors = map[string]func(e *c17Env, a string) sdk.Msg{
 		return &ammtypes.MsgUpdatePoolParams{Authority: a, PoolId: e.std.Pools[0].Id, PoolParams: ammtypes.PoolParams{SwapFee: D("0.017"), UseOracle: false, FeeDenom: "uusdc"}}
 	},
 	"/elys.assetprofile.MsgUpdateEntry": func(e *c17Env, a string) sdk.Msg {
-		return &aptypes.MsgUpdateEntry{Authority: a, BaseDenom: "uc17", Decimals: 18, Denom: "uc17", DisplayName: "C17x", CommitEnabled: true}
+		return &aptypes.MsgUpdateEntry{Authority: a, BaseDenom: e.obj("uc17", "uc17o"), Decimals: 18, Denom: e.obj("uc17", "uc17o"), DisplayName: "C17x", CommitEnabled: true}
 	},
 	"/elys.assetprofile.MsgDeleteEntry": func(e *c17Env, a string) sdk.Msg {
-		return &aptypes.MsgDeleteEntry{Authority: a, BaseDenom: "uc17"}
+		return &aptypes.MsgDeleteEntry{Authority: a, BaseDenom: e.obj("uc17", "uc17o")}
 	},
 	"/elys.burner.MsgUpdateParams": func(e *c17Env, a string) sdk.Msg {
 		return &burnertypes.MsgUpdateParams{Authority: a, Params: burnertypes.Params{EpochIdentifier: "week"}}
@@ -374,10 +395,10 @@ var c17Ctors = map[string]func(e *c17Env, a string) sdk.Msg{
 		return &toktypes.MsgCreateAirdrop{Authority: a, Intent: "c17new", Amount: 5, Expiry: 4_000_000_000}
 	},
 	"/elys.tokenomics.MsgUpdateAirdrop": func(e *c17Env, a string) sdk.Msg {
-		return &toktypes.MsgUpdateAirdrop{Authority: a, Intent: "c17drop", Amount: 6, Expiry: 4_000_000_001}
+		return &toktypes.MsgUpdateAirdrop{Authority: a, Intent: e.obj("c17drop", "c17drop-o"), Amount: 6, Expiry: 4_000_000_001}
 	},
 	"/elys.tokenomics.MsgDeleteAirdrop": func(e *c17Env, a string) sdk.Msg {
-		return &toktypes.MsgDeleteAirdrop{Authority: a, Intent: "c17drop"}
+		return &toktypes.MsgDeleteAirdrop{Authority: a, Intent: e.obj("c17drop", "c17drop-o")}
 	},
 	"/elys.tokenomics.MsgUpdateGenesisInflation": func(e *c17Env, a string) sdk.Msg {
 		return &toktypes.MsgUpdateGenesisInflation{Authority: a, Inflation: c17Infl(9), SeedVesting: 9, StrategicSalesVesting: 9}
@@ -386,10 +407,10 @@ var c17Ctors = map[string]func(e *c17Env, a string) sdk.Msg{
 		return &toktypes.MsgCreateTimeBasedInflation{Authority: a, StartBlockHeight: 3000, EndBlockHeight: 4000, Description: "c17new", Inflation: c17Infl(2)}
 	},
 	"/elys.tokenomics.MsgUpdateTimeBasedInflation": func(e *c17Env, a string) sdk.Msg {
-		return &toktypes.MsgUpdateTimeBasedInflation{Authority: a, StartBlockHeight: 1000, EndBlockHeight: 2000, Description: "c17upd", Inflation: c17Infl(3)}
+		return &toktypes.MsgUpdateTimeBasedInflation{Authority: a, StartBlockHeight: e.h(1000, 3000), EndBlockHeight: e.h(2000, 4000), Description: "c17upd", Inflation: c17Infl(3)}
 	},
 	"/elys.tokenomics.MsgDeleteTimeBasedInflation": func(e *c17Env, a string) sdk.Msg {
-		return &toktypes.MsgDeleteTimeBasedInflation{Authority: a, StartBlockHeight: 1000, EndBlockHeight: 2000}
+		return &toktypes.MsgDeleteTimeBasedInflation{Authority: a, StartBlockHeight: e.h(1000, 3000), EndBlockHeight: e.h(2000, 4000)}
 	},
 	"/elys.tradeshield.MsgUpdateParams": func(e *c17Env, a string) sdk.Msg {
 		p := e.w.App.TradeshieldKeeper.GetParams(e.ctx)
@@ -730,6 +751,32 @@ func runC17(t *testing.T, seed int64, n int, out *Out) {
 				}
 				if r.Code == 0 || len(r.Changed) > 0 {
 					p.boot() // A no longer equals the control: start again from identical worlds
+				}
+			}
+		}
+		// the account RECORDED as the owner of the targeted object (not governance) signs, naming itself: only messages whose
+		// body names such an object differ from the "self" variant above
+		{
+			rec := p.A.Accts[6]
+			oe := env()
+			oe.owned = true
+			msg := mk(oe, rec.Addr.String())
+			if string(c17MsgJSON(p.A, msg)) != string(c17MsgJSON(p.A, mk(env(), rec.Addr.String()))) {
+				got, _ := c17StringField(msg, g.field)
+				r := p.probe(TxReq{Signer: rec, Msgs: []sdk.Msg{msg}})
+				out.Line(J{"t": "c17.case", "id": 0, "kind": "gov", "module": g.module, "msg": g.name, "url": g.url, "field": g.field,
+					"variant": "recordedOwner", "signerKind": "recordedOwner", "signer": rec.Addr.String(), "fieldValue": got, "gov": p.A.Gov,
+					"code": r.Code, "log": clip(r.Log, 220), "changed": r.Changed, "vb": c17ValidateBasic(msg), "blockErr": r.BlockErr,
+					"guardHit": strings.Contains(r.Log, "invalid authority"), "body": c17MsgJSON(p.A, msg), "nontrivial": true})
+				verdict := "refused"
+				if r.Code == 0 {
+					verdict = "ACCEPTED"
+				} else if len(r.Changed) > 0 {
+					verdict = "refused+CHANGED"
+				}
+				stats["gov/recordedOwner/"+verdict]++
+				if r.Code == 0 || len(r.Changed) > 0 {
+					p.boot()
 				}
 			}
 		}
